@@ -125,7 +125,11 @@ class Symboliser:
             for k in list(v.attrs):
                 if k.startswith("_") or k in self.keep or k in ("checksum_correct", "checksum"):
                     continue
-                v.attrs[k] = self.sym(f"{path}.{k}" if path else k, v.attrs[k])
+                sub = f"{path}.{k}" if path else k
+                if self.owner is None:
+                    self.owner = {}
+                self.owner[sub] = v.cls
+                v.attrs[k] = self.sym(sub, v.attrs[k])
             return v
         if isinstance(v, bool):
             s = AInt([I.atom_form((f"f.{path}", "int", 0))], isbool=True)
@@ -151,10 +155,59 @@ class Symboliser:
             return [self.sym(f"{path}[{i}]", x) for i, x in enumerate(v)]
         elif isinstance(v, tuple):
             return tuple(self.sym(f"{path}[{i}]", x) for i, x in enumerate(v))
+        elif isinstance(v, EnumMember) and self.enums and self.enum_ok(path, v):
+            ci, w = self._enum_info[v.cls]
+            s = AEnum(ci, AInt([I.atom_form((f"f.{path}", "int", j)) for j in range(w)]))
+            # only the DEFINED members are meant: a path that pins the bits to an undefined value is outside the assumption
+            vals = frozenset(m.value for m in I.repo.enum_members(ci).values())
+            I.st.__dict__.setdefault("wf_members", []).append((ci.qualname, tuple(s.val.msb_first(w)), vals))
         else:
-            return v  # enums, strings, floats, None, dicts keep their captured value (they select the shape)
+            return v  # strings, floats, None, dicts and shape-selecting enums keep their captured value
         self.fields[path] = s
         return s
+
+    enums = False
+    _enum_info = None
+    owner = None     # path -> class that holds the attribute (set while descending)
+
+    def enum_ok(self, path, v) -> bool:
+        """a small integer enumeration that the code of its owner class only serialises (`.value`, constructor call) and never
+        compares or looks up: varying it cannot select another shape"""
+        I = self.I
+        if self._enum_info is None:
+            self._enum_info = {}
+        if v.cls not in self._enum_info:
+            info = None
+            for ci in I.repo.all_classes():
+                if ci.name == v.cls and I.repo.is_enum(ci):
+                    mem = I.repo.enum_members(ci)
+                    vals = [m.value for m in mem.values()]
+                    if len(vals) >= 2 and all(isinstance(x, int) and not isinstance(x, bool) and 0 <= x < 16 for x in vals):
+                        info = (ci, max(max(vals).bit_length(), 1))
+                    break
+            self._enum_info[v.cls] = info
+        if self._enum_info[v.cls] is None:
+            return False
+        leaf = path.split(".")[-1]
+        own = (self.owner or {}).get(path)
+        if own is None:
+            return False
+        import ast as _ast
+        for m in own.methods.values():
+            for n in _ast.walk(m.node):
+                tests = []
+                if isinstance(n, _ast.Compare):
+                    tests = [n]
+                elif isinstance(n, (_ast.Subscript,)):
+                    tests = [n.slice]
+                elif isinstance(n, (_ast.If, _ast.IfExp, _ast.While)):
+                    tests = [n.test]
+                elif isinstance(n, _ast.Call) and isinstance(n.func, _ast.Name) and n.func.id in ("isinstance", "getattr", "hasattr"):
+                    tests = list(n.args)
+                for t in tests:
+                    if any(isinstance(x, _ast.Attribute) and x.attr == leaf and isinstance(x.ctx, _ast.Load) for x in _ast.walk(t)):
+                        return False
+        return True
 
 
 def lookup(obj, path):
@@ -172,6 +225,10 @@ def lookup(obj, path):
 
 
 def bits_of(I, v, w=None):
+    if isinstance(v, AEnum) and isinstance(v.val, AInt) and v.val.ext is None:
+        return I.simp_bits(v.val.msb_first(w or max(len(v.val.bits), 1)))
+    if isinstance(v, EnumMember) and isinstance(v.value, int) and not isinstance(v.value, bool) and v.value >= 0 and w:
+        return [F(0, (v.value >> (w - 1 - i)) & 1) for i in range(w)]
     if isinstance(v, ABits):
         return I.simp_bits(v.items)
     if isinstance(v, AInt):
